@@ -5,7 +5,7 @@ import re
 from functools import reduce
 from typing import Callable
 
-replacements = {"!": "not ", "^": " and ", "v": " or "}
+replacements = {"!": " not ", "^": " and ", "v": " or "}
 
 pattern = re.compile(r"\!(?!=)|\^|\bv\b")
 
@@ -133,7 +133,7 @@ def parse_boolean_expr(expr, variable_hook, operator_mapping):
         raise SyntaxError("Empty expression")
     if expr.isidentifier() and not keyword.iskeyword(expr):
         return variable_hook(expr)
-    expr = replace_operators(expr)
+    expr = replace_operators(expr).strip()
     tree = ast.parse(expr, mode="eval")
     return build_expression(tree.body, variable_hook, operator_mapping)
 
